@@ -54,6 +54,16 @@ def run(tier, seed):
     for _ in range(60 if quick else 600):
         a, b = rng.randrange(B32), rng.randrange(B32)
         pairs += [(a, b), (a, a), (a, min(B32 - 1, a + 1))]
+    # counters that happen to look like something else: the Unix time of this very moment (some authenticators count seconds), years, the new
+    # integer literals of the changed source (harness/srcdict.py) as values and as distances
+    import time as _time
+    from harness import srcdict
+    now = int(_time.time())
+    for base in [now, now // 60, now * 1000 % B32, 20261001] + [n for n in srcdict.big_numbers() if n < B32]:
+        for d in [0, 1, 5, 60, 299, 300, 301, 3600] + [n for n in srcdict.thresholds()][:4]:
+            if base - d >= 0 and base + d < B32:
+                pairs += [(base, base - d), (base + d, base - d), (base - d, base - d), (base + d, base), (base - d, base)]
+    pairs = list(dict.fromkeys(pairs))
     for i, (s, c) in enumerate(pairs):
         present(s, c, kind=("ES256-P256" if i % 5 else "EdDSA"), form=("record" if i % 3 else "dict"), flags=FLAGS[i % 7 % len(FLAGS)] if i % 2 else 0x05)
     for fl in FLAGS[1:]:
@@ -107,7 +117,7 @@ def run(tier, seed):
         chk.seen(("hist", tuple(h)))
     chk.sample({"history_of_assertion_indices": hists[0], "counters_of_assertions": ctrs})
     B.close()
-    fw.env_invariance(chk, "auth")          # the same seeded cases under -O / -OO, warnings-as-errors, other TZ / locale, a private CA bundle
+    fw.env_invariance(chk, "auth", "reg")          # the same seeded cases under -O / -OO, warnings-as-errors, other TZ / locale, a private CA bundle
     return fw.finish(chk, ob, br, TRUSTED,
                      ["raw record inputs consist of bytes (cred_wf); the RP stores exactly the reported counter after each success"],
                      RULE, "coqc -Q . PW Properties/C07.v; thorough: coqchk -o")
